@@ -977,18 +977,19 @@ def np_ravel(ex, a, **kw):
 
 @ext('numpy.fft.fftfreq')
 def np_fftfreq(ex, n, d=None):
-    """fftfreq(n)[i] = i/n for i < (n+1)//2 (i.e. i <= (n-1)//2), (i-n)/n otherwise;  /d when given"""
+    """fftfreq(n)[i] = i/n for 2i <= n-1, (i-n)/n otherwise (divided by d when given).  The element is the uninterpreted
+    term fftfreq(n, i); its definition (fftfreq_def) is instantiated by the contracts that need the values."""
     dd = Fraction(1) if d is None else d
 
     def elem(idx):
-        i = idx[0]
-        nz = tonum(n)
-        iz = tonum(i)
-        pos = 2 * iz < nz + 1 if True else None      # i <= (n-1)//2  <=>  2i <= n-1  <=> 2i < n
-        pos = 2 * iz <= nz - 1
-        v = s_ite(pos, toreal(iz) / toreal(nz), (toreal(iz) - toreal(nz)) / toreal(nz))
-        return s_div(v, dd, ex)
+        v = UF['fftfreq'](tonum(n), tonum(idx[0]))
+        return v if d is None else s_div(v, dd, ex)
     return Arr([n], elem, 'float')
+
+
+def fftfreq_def(n, i):
+    nz, iz = tonum(n), tonum(i)
+    return UF['fftfreq'](nz, iz) == z3.If(2 * iz <= nz - 1, z3.ToReal(iz) / z3.ToReal(nz), (z3.ToReal(iz) - z3.ToReal(nz)) / z3.ToReal(nz))
 
 
 def _roll_last(ex, a, shift_of_n):
@@ -1299,3 +1300,60 @@ def np_broadcast_to(ex, a, shape, **kw):
             raise SymRaise('ValueError', 'operands could not be broadcast together with remapped shapes')
     ael = a.elem
     return Arr(shape, lambda idx: ael(tuple(0 if flags[j] else idx[off + j] for j in range(len(flags)))), a.kind, prov=a.prov, view=True, np_dtype=a.np_dtype)
+
+
+# ------------------------------------------------------------------------------------------ fft / filters (opaque operators)
+@ext('numpy.fft.fft')
+def np_fft(ex, a, n=None, axis=-1, **kw):
+    from . import opaque
+    a = _arr(ex, a)
+    if n is not None or conc(axis) not in (-1, a.ndim - 1):
+        raise Unsupported('fft with n= or along another axis')
+    return opaque.apply_last_axis(ex, 'fft', (), a)
+
+
+@ext('numpy.fft.ifft')
+def np_ifft(ex, a, n=None, axis=-1, **kw):
+    from . import opaque
+    a = _arr(ex, a)
+    if n is not None or conc(axis) not in (-1, a.ndim - 1):
+        raise Unsupported('ifft with n= or along another axis')
+    return opaque.apply_last_axis(ex, 'ifft', (), a)
+
+
+class SOS:
+    """second-order sections of a Bessel low-pass design: identified by (order, cutoff, fs); numerically opaque"""
+    def __init__(self, n, W, fs, btype, norm):
+        self.params = (n, W, fs, btype, norm)
+
+
+@ext('scipy.signal.bessel')
+def sg_bessel(ex, N=None, Wn=None, btype='low', analog=False, output='ba', norm='phase', fs=None):
+    if output != 'sos' or analog:
+        raise Unsupported('bessel design other than digital sos')
+    return SOS(N, Wn, fs, btype, norm)
+
+
+@ext('scipy.signal.sosfiltfilt')
+def sg_sosfiltfilt(ex, sos, x, axis=-1, **kw):
+    from . import opaque
+    if not isinstance(sos, SOS):
+        raise Unsupported('sosfiltfilt with an unknown filter')
+    x = _arr(ex, x)
+    if conc(axis) not in (-1, x.ndim - 1):
+        raise Unsupported('sosfiltfilt along another axis')
+    return opaque.apply_last_axis(ex, 'L', sos.params, x)
+
+
+@ext('scipy.signal.sosfreqz')
+def sg_sosfreqz(ex, sos, worN=512, whole=False, fs=None):
+    if not isinstance(sos, SOS):
+        raise Unsupported('sosfreqz with an unknown filter')
+    k = next(ex.fresh)
+    fr = z3.Function(f'freqz_re!{k}', z3.IntSort(), z3.RealSort())
+    fi = z3.Function(f'freqz_im!{k}', z3.IntSort(), z3.RealSort())
+    H = Arr([worN], lambda idx: Cx(fr(tonum(idx[0])), fi(tonum(idx[0]))), 'complex')
+    H.freqz = (sos.params, worN, whole, fs)
+    ex.__dict__.setdefault('freqz', []).append(H)
+    w = Arr([worN], lambda idx: z3.Function(f'freqz_w!{k}', z3.IntSort(), z3.RealSort())(tonum(idx[0])), 'float')
+    return (w, H)
